@@ -247,8 +247,11 @@ def drive(obs, rng, spec, ds, axes, chosen, call, route, family):
             continue
         obs.cls('applied-twice')
         d2 = depthgen.dataset_diff(snap_out, again, encoding=True)
+        # known mis-reading of a case-variant "down": when such a coordinate shares its dimension with another depth coordinate
+        # the two are normalised inconsistently and the dimension is reversed again by every further call
+        shared = any(depthgen.case_variant_down(x['attr']) and any(y is not x and y['dim'] == x['dim'] for y in chosen) for x in chosen)
         obs.expect(not d2, 'f(f(x)) differs from f(x)',
-                   lambda: {'options': [a, b], 'route': route, 'differences': d2[:6]}, mech='not-idempotent')
+                   lambda: {'options': [a, b], 'route': route, 'differences': d2[:6]}, mech=CASE_MECH if shared else 'not-idempotent')
         d3 = depthgen.dataset_diff(snap_out, out, encoding=True, order=True)
         obs.expect(not d3, 'normalize_depth_variables modified its (already normalised) input dataset',
                    lambda: {'options': [a, b], 'route': route, 'differences': d3[:6]}, mech='input-mutated')
